@@ -30,6 +30,11 @@ def case_variant(s, k):
 
 def fn_variant(name, args, k):
     """functional notation with optional whitespace at every permitted position and letter case variants."""
+    if k % 29 == 6:
+        return f"\f{name}(\f{', '.join(args)}\f)\f"                  # form feed is CSS white space, too
+    if k % 31 == 7:
+        pad = " " * 45
+        return f"{name}({pad}{(',' + pad).join(args)}{pad})"           # any AMOUNT of white space
     k = k % 6
     if k == 0:
         return f"{name}({', '.join(args)})"
@@ -144,7 +149,7 @@ def events(t, rnd):
         for cv in range(4):
             txt = case_variant(name, cv)
             if cv == 3:
-                txt = "  " + txt + "\t"
+                txt = ("  " + txt + "\t") if len(name) % 2 else ("\f" + txt + "\f")
             evs.append({"k": "named", "name": name, "obs": both(txt, n), "txt": txt})
             n += 1
     # ---- rgb() integers: each channel through 0..255, random triples, spelling variants
